@@ -211,6 +211,13 @@ def _col(x):
     return np.arange(1, len(x) + 1)[:, None]
 
 
+def _indep_mask(x):
+    """a boolean ragged mask built WITHOUT touching x's data (only its row lengths)"""
+    from npstructures import RaggedArray
+    lens = [int(l) for l in x.lengths]
+    return RaggedArray(np.arange(sum(lens)) % 2 == 0, lens)
+
+
 READ_PROBES = [
     ("len", lambda x: len(x)), ("size", lambda x: x.size), ("lengths", lambda x: np.asarray(x.lengths)),
     ("shape0", lambda x: x.shape[0]), ("tolist", lambda x: x), ("ravel", lambda x: x.ravel()), ("iter", lambda x: [np.asarray(r) for r in x]),
@@ -222,6 +229,10 @@ READ_PROBES = [
     ("x[:, 0:1]", lambda x: x[:, 0:1]), ("x[:, ::-1]", lambda x: x[:, ::-1]), ("x[:, -1:]", lambda x: x[:, -1:]), ("x[:, 1::2]", lambda x: x[:, 1::2]),
     ("x[1:, :-1]", lambda x: x[1:, :-1]), ("x[::-1, ::-2]", lambda x: x[::-1, ::-2]),
     ("x[0, 0]", lambda x: x[0, 0]), ("x[-1, -1]", lambda x: x[-1, -1]), ("x[0, 1:]", lambda x: x[0, 1:]), ("x[:, 0]", lambda x: x[:, 0]),
+    ("x[:, 1]", lambda x: x[:, 1]), ("x[:, -2]", lambda x: x[:, -2]), ("x[1:, 1]", lambda x: x[1:, 1]), ("x[0, 1]", lambda x: x[0, 1]),
+    ("x[indep-mask]", lambda x: x[_indep_mask(x)]), ("subset(indep-mask)", lambda x: x.subset(_indep_mask(x))),
+    ("ragged_slice", lambda x: __import__("npstructures").ragged_slice(x, np.minimum(1, np.asarray(x.lengths)), np.asarray(x.lengths))),
+    ("ragged_slice-ends", lambda x: __import__("npstructures").ragged_slice(x, ends=np.full(len(x), -1))),
     ("x[...]", lambda x: x[...]), ("x[()]", lambda x: x[()]), ("x[...][::-1]", lambda x: x[...][::-1]),
     ("x+1", lambda x: x + 1), ("x*col", lambda x: x * _col(x)), ("col-x", lambda x: _col(x) - x),
     ("x+x", lambda x: x + x), ("x>2", lambda x: x > 2),
@@ -265,6 +276,14 @@ def _assign_ragged_mask(x):
     x[x > 2] = -5
 
 
+def _assign_indep_mask(x):
+    x[_indep_mask(x)] = -2
+
+
+def _assign_col_int(x):
+    x[:, 1] = -1
+
+
 def _assign_cell(x):
     x[-1, -1] = -4
 
@@ -274,7 +293,8 @@ def _assign_rev(x):
 
 
 ASSIGN_PROBES = [("x[0]=c", _assign_0), ("x[:,1:]=c", _assign_cols), ("x[mask]=c", _assign_mask), ("x.fill(c)", _assign_fill),
-                 ("x[x>2]=c", _assign_ragged_mask), ("x[-1,-1]=c", _assign_cell), ("x[::-1,::-1]=c", _assign_rev)]
+                 ("x[x>2]=c", _assign_ragged_mask), ("x[-1,-1]=c", _assign_cell), ("x[::-1,::-1]=c", _assign_rev),
+                 ("x[indep-mask]=c", _assign_indep_mask), ("x[:,1]=c", _assign_col_int)]
 
 
 # ---------------------------------------------------------------- the search
